@@ -445,8 +445,9 @@ impl<B: ByteOrder> StringDecoder for Utf16Decoder<B> {
             .chunks_exact(2)
             // Find the position of the delimiter
             .position(|chunk| chunk == delimiter.as_ref())
-            // If the delimiter is not found, use the whole data, otherwise use the position of the delimiter
-            .map_or(data.len(), |pos| pos * 2);
+            // If the delimiter is not found, use the whole data (without a dangling half code unit), otherwise
+            // use the position of the delimiter
+            .map_or(data.len() - data.len() % 2, |pos| pos * 2);
 
         // Create a buffer of u16 values to hold the decoded characters
         let mut paired_buf: Vec<u16> = vec![0; position / 2];
